@@ -306,3 +306,136 @@ Qed.
 Ltac eff_frame :=
   apply eff_of_frame; [solve_frame|reflexivity|reflexivity|reflexivity|reflexivity|reflexivity|reflexivity|
                        first [intros _; reflexivity | let X := fresh in intro X; discriminate X]].
+
+Lemma eff_mk c p s s' :
+  frame c s s' -> fmem Fst c = false -> (fmem Fsme c = false -> sm_enabled s' = sm_enabled s) ->
+  sq_ext (pw p) s s' -> h_sub (ph p) s s' -> i_sub (pid p) s s' -> t_sub (pt p) s s' -> smq_sub s s' ->
+  eff c p s s'.
+Proof.
+  intros F G Hs A B C D E. constructor; try assumption.
+  - eapply frame_weaken; [|exact F]. intros f Hf. rewrite fmem_app in Hf. apply orb_false_iff in Hf. tauto.
+  - intros _. exact F.
+  - left. exact (F Fst G).
+  - intro X. left. apply Hs. exact X.
+Qed.
+Ltac sme_side := first [intros _; reflexivity | let X := fresh in intro X; discriminate X].
+Ltac same_side :=
+  first [apply sq_ext_same; reflexivity | apply h_sub_same; reflexivity | apply i_sub_same; reflexivity
+        | apply t_sub_same; reflexivity | apply smq_sub_same; reflexivity].
+
+Definition pW (P : entry -> Prop) : preds := mkP P (fun _ => False) (fun _ => False) (fun _ => False).
+Definition pH (P : hkind -> Prop) : preds := mkP (fun _ => False) P (fun _ => False) (fun _ => False).
+Definition pI (P : idk -> Prop) : preds := mkP (fun _ => False) (fun _ => False) P (fun _ => False).
+Definition pT (P : tkind -> Prop) : preds := mkP (fun _ => False) (fun _ => False) (fun _ => False) P.
+
+(* ------------------------------------------------------------------ primitive functions *)
+Definition qa_entry (w : welem) (u m : bool) (s : state) : entry := (w, u, m || (negb u && negb (sm_enabled s))).
+
+Lemma q_append_eff w u m s :
+  eff [Fsq] (pW (fun x => x = qa_entry w u m s \/ x = (WReq, false, true))) s (q_append w u m s).
+Proof.
+  unfold q_append. cbv zeta. break_if.
+  - apply eff_mk; [solve_frame|reflexivity|sme_side| |same_side..].
+    exists [qa_entry w u m s; (WReq, false, true)]. split.
+    + simpl. rewrite <- app_assoc. reflexivity.
+    + repeat constructor; cbn; auto.
+  - apply eff_mk; [solve_frame|reflexivity|sme_side| |same_side..].
+    exists [qa_entry w u m s]. split; [reflexivity|]. repeat constructor; cbn; auto.
+Qed.
+Lemma send_gated_eff w u m s :
+  eff [Fsq] (pW (fun x => x = qa_entry w u m s \/ x = (WReq, false, true))) s (send_gated w u m s).
+Proof. unfold send_gated. break_if; [apply q_append_eff|apply eff_refl]. Qed.
+Lemma send_raw_m_eff w u m s :
+  eff [Fsq] (pW (fun x => x = qa_entry w u m s \/ x = (WReq, false, true))) s (send_raw_m w u m s).
+Proof. unfold send_raw_m. break_match; try apply q_append_eff; apply eff_refl. Qed.
+(* nothing is queued unless Connected *)
+Lemma send_gated_off w u m s : st s <> Connected -> send_gated w u m s = s.
+Proof. unfold send_gated, is_connected_owner. destruct (st s); try reflexivity. congruence. Qed.
+Lemma send_raw_m_off w u m s : st s <> Connected -> send_raw_m w u m s = s.
+Proof. unfold send_raw_m. destruct (st s); try reflexivity. congruence. Qed.
+
+Lemma In_tk_timed_add k k' now s : In k' (tk (timed_add k now s)) <-> In k' (tk s) \/ k' = k.
+Proof.
+  unfold timed_add. destruct (timed_has k s) eqn:E.
+  - split; [auto|]. intros [A|A]; [exact A|]. subst. apply timed_has_In. exact E.
+  - unfold tk. simpl. intuition.
+Qed.
+Lemma timed_add_eff k now s : eff [Ft] (pT (fun x => x = k)) s (timed_add k now s).
+Proof.
+  apply eff_mk; [|reflexivity|sme_side| | | | |]; try (unfold timed_add; break_if; same_side).
+  - unfold timed_add. break_if; [apply frame_refl|solve_frame].
+  - intros k' H. apply In_tk_timed_add in H. exact H.
+Qed.
+Lemma In_tk_timed_del k k' s : In k' (tk (timed_del k s)) <-> In k' (tk s) /\ k' <> k.
+Proof.
+  unfold timed_del, tk. simpl.
+  rewrite (map_filter_proj (fun x : tkind * bool * Z => fst (fst x)) (fun y => negb (tkind_eqb k y))). rewrite filter_In.
+  split; intros [A B]; split; try exact A.
+  - intro E. subst. assert (X : tkind_eqb k k = true) by (apply tkind_eqb_eq; reflexivity). rewrite X in B. discriminate.
+  - destruct (tkind_eqb k k') eqn:E; [|reflexivity]. apply tkind_eqb_eq in E. congruence.
+Qed.
+Lemma timed_del_eff k s p : eff [Ft] p s (timed_del k s).
+Proof.
+  apply eff_mk; [unfold timed_del; solve_frame|reflexivity|sme_side|same_side|same_side|same_side| |same_side].
+  intros k' H. apply In_tk_timed_del in H. left. tauto.
+Qed.
+Lemma timed_reset_all_eff now s p : eff [] p s (timed_reset_all now s).
+Proof.
+  apply eff_of_frame; try reflexivity; [|sme_side].
+  intros f H; destruct f; try discriminate H; try reflexivity.
+  unfold timed_reset_all, eq_on, tk. simpl. rewrite map_map. reflexivity.
+Qed.
+Lemma timed_set_stamp_eff k now s p : eff [] p s (timed_set_stamp k now s).
+Proof.
+  apply eff_of_frame; try reflexivity; [|sme_side].
+  intros f H; destruct f; try discriminate H; try reflexivity.
+  unfold timed_set_stamp, eq_on, tk. simpl. rewrite map_map. apply map_ext. intro a. break_if; reflexivity.
+Qed.
+
+Lemma In_hk_h_add k k' s : In k' (hk (h_add k s)) <-> In k' (hk s) \/ k' = k.
+Proof.
+  unfold h_add. destruct (h_has k s) eqn:E.
+  - split; [auto|]. intros [A|A]; [exact A|]. subst. apply h_has_In. exact E.
+  - unfold hk. simpl. rewrite map_app, in_app_iff. simpl. intuition.
+Qed.
+Lemma h_add_eff k s : eff [Fh] (pH (fun x => x = k)) s (h_add k s).
+Proof.
+  apply eff_mk; [|reflexivity|sme_side| | | | |]; try (unfold h_add; break_if; same_side).
+  - unfold h_add. break_if; [apply frame_refl|solve_frame].
+  - intros k' H. apply In_hk_h_add in H. exact H.
+Qed.
+Lemma In_hk_h_del k k' s : In k' (hk (h_del k s)) <-> In k' (hk s) /\ k' <> k.
+Proof.
+  unfold h_del, hk. simpl.
+  rewrite (map_filter_proj (@fst hkind bool) (fun y => negb (hkind_eqb k y))). rewrite filter_In.
+  split; intros [A B]; split; try exact A.
+  - intro E. subst. rewrite hkind_eqb_refl in B. discriminate.
+  - destruct (hkind_eqb k k') eqn:E; [|reflexivity]. apply hkind_eqb_eq in E. congruence.
+Qed.
+Lemma h_del_eff k s p : eff [Fh] p s (h_del k s).
+Proof.
+  apply eff_mk; [unfold h_del; solve_frame|reflexivity|sme_side|same_side| |same_side|same_side|same_side].
+  intros k' H. apply In_hk_h_del in H. left. tauto.
+Qed.
+Lemma In_ik_id_add k k' s : In k' (ik (id_add k s)) <-> In k' (ik s) \/ k' = k.
+Proof.
+  unfold id_add. destruct (id_has k s) eqn:E.
+  - split; [auto|]. intros [A|A]; [exact A|]. subst. apply id_has_In. exact E.
+  - unfold ik. simpl. rewrite map_app, in_app_iff. simpl. intuition.
+Qed.
+Lemma id_add_eff k s : eff [Fid] (pI (fun x => x = k)) s (id_add k s).
+Proof.
+  apply eff_mk; [|reflexivity|sme_side| | | | |]; try (unfold id_add; break_if; same_side).
+  - unfold id_add. break_if; [apply frame_refl|solve_frame].
+  - intros k' H. apply In_ik_id_add in H. exact H.
+Qed.
+Lemma In_ik_id_del k k' s : In k' (ik (id_del k s)) -> In k' (ik s).
+Proof.
+  unfold id_del, ik. simpl.
+  rewrite (map_filter_proj (@fst idk bool) (fun y => negb (idk_eqb k y))). rewrite filter_In. tauto.
+Qed.
+Lemma id_del_eff k s p : eff [Fid] p s (id_del k s).
+Proof.
+  apply eff_mk; [unfold id_del; solve_frame|reflexivity|sme_side|same_side|same_side| |same_side|same_side].
+  intros k' H. left. eapply In_ik_id_del. exact H.
+Qed.
